@@ -297,10 +297,10 @@ func C14(tier string) int {
 		}
 	}
 
-	// ---- (2) callback lists of length 0..3 (thorough: 4) over a per-type alphabet ----
-	maxLen := 3
+	// ---- (2) callback lists of length 0..4 (thorough: 5) over a per-type alphabet ----
+	maxLen := 4
 	if res.Thorough() {
-		maxLen = 4
+		maxLen = 5
 	}
 	for _, v := range keys {
 		alpha := []cbSpec{{v, nil}, {v, errA}}
@@ -377,6 +377,9 @@ func C14(tier string) int {
 			arrays = append(arrays, []string{a, b})
 			for _, c := range names {
 				arrays = append(arrays, []string{a, b, c})
+				for _, d := range names {
+					arrays = append(arrays, []string{a, b, c, d})
+				}
 			}
 		}
 	}
@@ -561,7 +564,7 @@ func C14(tier string) int {
 	}
 
 	res.Extra["types"] = len(keys)
-	res.Rule = fmt.Sprintf("(1) all %d x %d (value type, callback type) pairs for JSONResolver, TypeResolver and TypePredicatedResolver (predicate outcomes (true,nil),(false,nil),(false,err),(true,err); and a passing own-type predicate in front of a delegate that has no callback for the type); (1c) one JSONResolver / TypeResolver value reused for a sequence of 7 values of different types; (2) for every value type all callback lists of length 0..%d over {own, own returning an error, a parent, a child, a sibling, a similarly named foreign type, a foreign type}; (3) all 'type' arrays of length 1..3 over {Note, Person, Emoji, an unknown name, an unknown prefixed name} x 6 callback sets, with ToType as cross-check; (3a) 12 'type' members that name no type (empty array, arrays of non-strings, number, null, object, boolean, empty string, wrong case): nothing invoked, unmatched error; (3b) every type written under 7 @context spellings (own vocabulary URI, the same with the other of http / https, in a list, aliased {URI: alias} alone / in a list / after another alias map / with a type array) through JSONResolver and ToType; (4) 13 wrong constructor shapes x 3 constructors; callbacks are manufactured with reflect.MakeFunc from the ontology-derived binding table; oracle: exactly the first own-type callback is invoked and its error returned by identity, else nothing is invoked and IsUnmatchedErr holds", len(keys), len(keys), maxLen)
+	res.Rule = fmt.Sprintf("(1) all %d x %d (value type, callback type) pairs for JSONResolver, TypeResolver and TypePredicatedResolver (predicate outcomes (true,nil),(false,nil),(false,err),(true,err); and a passing own-type predicate in front of a delegate that has no callback for the type); (1c) one JSONResolver / TypeResolver value reused for a sequence of 7 values of different types; (2) for every value type all callback lists of length 0..%d over {own, own returning an error, a parent, a child, a sibling, a similarly named foreign type, a foreign type}; (3) all 'type' arrays of length 1..4 over {Note, Person, Emoji, an unknown name, an unknown prefixed name} x 6 callback sets, with ToType as cross-check; (3a) 12 'type' members that name no type (empty array, arrays of non-strings, number, null, object, boolean, empty string, wrong case): nothing invoked, unmatched error; (3b) every type written under 7 @context spellings (own vocabulary URI, the same with the other of http / https, in a list, aliased {URI: alias} alone / in a list / after another alias map / with a type array) through JSONResolver and ToType; (4) 13 wrong constructor shapes x 3 constructors; callbacks are manufactured with reflect.MakeFunc from the ontology-derived binding table; oracle: exactly the first own-type callback is invoked and its error returned by identity, else nothing is invoked and IsUnmatchedErr holds", len(keys), len(keys), maxLen)
 	res.Assumptions = []string{"for a multi-valued 'type' the value's own type is the first entry that names a known type (ToType is required to agree)"}
 	return res.Finish()
 }
